@@ -1,12 +1,12 @@
 SPECIFICATION Spec
-CONSTANTS N = 86400 MaxSteps = 6 InvertStartBySecTruncation = FALSE CaptureAtJoinEpoch = FALSE CacheIgnoresEpoch = FALSE LocalTimeEpoch = FALSE MaxJoinSteps = 4
+CONSTANTS N = 86400 MaxSteps = 4 InvertStartBySecTruncation = FALSE CaptureAtJoinEpoch = FALSE CacheIgnoresEpoch = FALSE LocalTimeEpoch = FALSE MaxJoinSteps = 0
 CONSTANT Lons <- LonsAll
 CONSTANT Theta0s <- ThetasAll
 CONSTANT StartSecs <- Secs60
-CONSTANT PriorAngles <- OnePrior
-CONSTANT Zones <- ZonesUtc
+CONSTANT PriorAngles <- NoPrior
+CONSTANT Zones <- ZonesAll
 CONSTANT Plans <- NoPlan
-CONSTANT Dts <- DtsThorough
+CONSTANT Dts <- DtsZones
 INVARIANT SiteEpochAgrees
 INVARIANT StartInversionExact
 INVARIANT ConvertIgnoresHistory
